@@ -125,6 +125,8 @@ def raw_frame(b):
         df.iloc[6:8, oi] = np.nan
         df.iloc[-5:-3, ti] = np.nan
         df.iloc[-3:-2, oi] = np.nan
+    if b.get("net_export"):
+        df["observed"] = df["observed"] - 1.5 * float(df["observed"].mean())
     if b.get("weekly_gap"):
         # the same hour of the same weekday is missing in every week (a scheduled meter-reading outage; 0.6 % of the hours)
         wd, hr = b["weekly_gap"]
